@@ -27,7 +27,7 @@ RULE = ("case = (source, function, inputs); non-trivial when the O1 listing diff
         "changed the IR) and both were executed; distinct by (source, inputs).")
 ASSUMPTIONS = ["O0 behaviour is the reference", "inputs are type-correct values"]
 SHARD_TIMEOUT = {"quick": 900, "thorough": 5400}
-BUDGET = {"quick": 150, "thorough": 5000}
+BUDGET = {"quick": 150, "thorough": 2500}
 DEFINED = ("ZeroDivisionError", "IndexError")
 
 
